@@ -412,6 +412,21 @@ fn gen_tree(rng: &mut Rng, root: &Path, allow_big: bool) -> BTreeMap<String, Vec
                 files.insert(rel, data);
             }
         }
+        // ... and, half of the time, a link to one of its sub-directories: `create` walks into it, so every file
+        // below the target is also stored under the link's path
+        if rng.chance(1, 2) {
+            let dirs: std::collections::BTreeSet<String> = files.keys().filter_map(|k| std::path::Path::new(k).parent().map(|p| p.to_string_lossy().to_string())).filter(|d| d != "tree").collect();
+            if let Some(d) = dirs.iter().next().cloned() {
+                let link = "tree/dir link".to_string();
+                if std::os::unix::fs::symlink(root.join(&d), root.join(&link)).is_ok() {
+                    crate::seams::fired("symlink_to_directory_in_input_tree");
+                    let below: Vec<(String, Vec<u8>)> = files.iter().filter(|(k, _)| k.starts_with(&format!("{d}/"))).map(|(k, v)| (format!("{link}/{}", &k[d.len() + 1..]), v.clone())).collect();
+                    for (k, v) in below {
+                        files.insert(k, v);
+                    }
+                }
+            }
+        }
     }
     files
 }
@@ -424,7 +439,7 @@ impl Prop for C17 {
         "exploration"
     }
     fn rule(&self) -> String {
-        "run = a seeded file tree (empty files, nested directories, unicode and spaces in names, sizes around 128 KiB and 4 MiB; one tree in three with symbolic links to some of its files, expected to be stored as the file behind the link) in a private scratch directory, X25519 key files written in PEM, and a command pipeline of the `mlar` binary built from the working tree: create (seeded layers/level/1..3 recipients; paths given as files, as a directory, or through stdin) then list, list -vv, cat of each file, whole extract, extract of one name, to-tar, and a seeded chain of repair / convert steps to other layer and key choices, re-checked after each step. Model = the file tree: the listing is exactly the given paths; every route returns each file's exact bytes; list -vv shows the true SHA-256 and a size string consistent with the true size; tar entries have the right names, sizes and contents. Key faults: wrong key, missing key for an encrypted archive, key given for an unencrypted archive: the command exits non-zero and leaves no output content (file absent or empty). distinct_nontrivial = distinct (layers, level bucket, recipients, create form, chain of steps, key fault, outcome) signatures.".into()
+        "run = a seeded file tree (empty files, nested directories, unicode and spaces in names, sizes around 128 KiB and 4 MiB; one tree in three with symbolic links to some of its files - stored as the file behind the link - and half of those with a link to one of its sub-directories, walked like a directory) in a private scratch directory, X25519 key files written in PEM, and a command pipeline of the `mlar` binary built from the working tree: create (seeded layers/level/1..3 recipients; paths given as files, as a directory, or through stdin) then list, list -vv, cat of each file, whole extract, extract of one name, to-tar, and a seeded chain of repair / convert steps to other layer and key choices, re-checked after each step. Model = the file tree: the listing is exactly the given paths; every route returns each file's exact bytes; list -vv shows the true SHA-256 and a size string consistent with the true size; tar entries have the right names, sizes and contents. Key faults: wrong key, missing key for an encrypted archive, key given for an unencrypted archive: the command exits non-zero and leaves no output content (file absent or empty). distinct_nontrivial = distinct (layers, level bucket, recipients, create form, chain of steps, key fault, outcome) signatures.".into()
     }
     fn assumptions(&self) -> Vec<String> {
         vec![
